@@ -57,6 +57,21 @@ func add(rootGoitPath, path string, index *store.Index) error {
 	return nil
 }
 
+// relativeToCwd returns the slash-separated path of arg relative to the current directory: the name the
+// path is staged under. Every spelling of a path (absolute, through "..", with "./") is thereby checked
+// against the ignore list and looked up in the index under that one name.
+func relativeToCwd(arg string) string {
+	cleaned := filepath.Clean(arg)
+	if absPath, err := filepath.Abs(arg); err == nil {
+		if curPath, err := os.Getwd(); err == nil {
+			if relPath, err := filepath.Rel(curPath, absPath); err == nil {
+				cleaned = relPath
+			}
+		}
+	}
+	return strings.ReplaceAll(cleaned, `\`, "/")
+}
+
 // addCmd represents the add command
 var addCmd = &cobra.Command{
 	Use:   "add",
@@ -77,8 +92,7 @@ var addCmd = &cobra.Command{
 			if _, err := os.Stat(arg); os.IsNotExist(err) {
 				// If the file does not exist but is registered in the index, delete it from the index
 				// but not delete here, just check it
-				cleanedArg := filepath.Clean(arg)
-				cleanedArg = strings.ReplaceAll(cleanedArg, `\`, "/")
+				cleanedArg := relativeToCwd(arg)
 				_, _, isEntryFound := client.Idx.GetEntry([]byte(cleanedArg))
 				if !isEntryFound {
 					return fmt.Errorf(`path "%s" did not match any files`, arg)
@@ -88,8 +102,7 @@ var addCmd = &cobra.Command{
 
 		for _, arg := range args {
 			// check if the arg is the target of excluding path
-			cleanedArg := filepath.Clean(arg)
-			cleanedArg = strings.ReplaceAll(cleanedArg, `\`, "/")
+			cleanedArg := relativeToCwd(arg)
 			if client.Ignore.IsIncluded(cleanedArg, client.Idx) {
 				continue
 			}
